@@ -85,12 +85,9 @@ def evalCondW (w : World) (toks : List Tok) : Bool × World :=
   match w.st.err with
   | some _ => (false, w)
   | none =>
-    match runExpand w.plat.tbl toks with
-    | .ok ts => match CbiVerif.Eval.evaluatePP ts with
-      | .ok b => (b, w)
-      | .error e => (false, { w with st := { w.st with err := some e } })
+    match condValue w.plat.tbl toks with
+    | .ok b => (b, w)
     | .error e => (false, { w with st := { w.st with err := some e } })
-    | .sig s => (false, { w with st := { w.st with err := some (.other s) } })
 
 mutual
 partial def assocFile (fs : FSMap) (file : String) (w : World) : World :=
@@ -124,7 +121,7 @@ partial def visitW (fs : FSMap) (file : String) (nodes : Array PNode) (w : World
           match lit with
           | some r => .ok r
           | none =>
-            match runExpand w.plat.tbl n.toks with
+            match runExpandT w.plat.tbl n.toks with
             | .ok ts => match includePath ts with | some r => .ok r | none => .error (.parse "Invalid path.")
             | .error e => .error e
             | .sig s => .error (.other s)
